@@ -192,6 +192,10 @@ type ctx struct {
 	cellRootType map[int]types.Type
 	allocated    []term
 	allocFrom    int
+	siteHit      map[string]bool
+	cbInvHit     map[string]bool
+	siteFr       *frame // frame and block of the call being executed in the verified function (or a closure of it)
+	siteBlk      *ssa.BasicBlock
 	siteCtx      string
 	knownLen     map[string]int
 	ghostConst   map[string]term
@@ -1192,6 +1196,9 @@ func (x *ctx) run(st *state, fr *frame, b *ssa.BasicBlock, idx int, prev *ssa.Ba
 				// arrays (variadic argument packs, literals): a fresh reference with a known length
 				r := x.freshTerm("array", sRef)
 				st.define(not(eq(r, null)))
+				if x.spec == 0 {
+					x.assumeFreshRef(st, r)
+				}
 				la := x.arr(st, "Len", false, sInt)
 				x.setArr(st, "Len", fmt.Sprintf("(store %s %s %s)", la, r.s, bvlit(uint64(at.Len()), 64)))
 				x.knownLen[r.s] = int(at.Len())
@@ -1331,7 +1338,12 @@ func (x *ctx) run(st *state, fr *frame, b *ssa.BasicBlock, idx int, prev *ssa.Ba
 			if x.spec == 0 && x.con != nil && len(x.con.Sites) > 0 && (fr.top || (fr.fn.Parent() != nil && closureOf(fr.fn, x.fn))) {
 				x.siteAssertions(st, fr, b, in)
 			}
+			saveFr, saveBlk := x.siteFr, x.siteBlk
+			if x.spec == 0 && x.con != nil && (fr.top || (fr.fn.Parent() != nil && closureOf(fr.fn, x.fn))) {
+				x.siteFr, x.siteBlk = fr, b
+			}
 			outs, inline := x.call(st, fr, in.Common(), in, in.Type())
+			x.siteFr, x.siteBlk = saveFr, saveBlk
 			if !inline {
 				continue
 			}
